@@ -163,6 +163,7 @@ Inductive ini_out : Type :=
 Record oracles : Type := mkOracles {
   o_head50 : head_out;          (* iterparse on data[0:50], first start event *)
   o_head150 : head_out;         (* iterparse on data[0:150], first start event *)
+  o_head : head_out;            (* iterparse on data, first start event *)
   o_xml : xml_out;              (* iterparse on data *)
   o_ini : ini_out;              (* configparser on data.decode() *)
   o_int : str -> option (option Z);   (* int(s): None = not in table, Some None = ValueError *)
@@ -191,22 +192,33 @@ Definition detect_pls (data : bytes) : bool :=
 
 Definition XSPF_NS_PLAYLIST : str := lit "{http://xspf.org/ns/0/}playlist".
 
-(* detect_*_header: Ok b, or the exception escaping ET.iterparse.  fx: ParseError,
-   LookupError and ValueError are caught. *)
+(* detect_*_header.
+   fx (the code after the fix: commits): _root_tag(data) == root_tag, where _root_tag is
+   the lower-cased tag of the first start event of ET.iterparse over the WHOLE document,
+   None on ParseError / LookupError / ValueError.
+   pinned code: only data[0:n] is looked at, it must contain `marker`, and LookupError /
+   ValueError escape. *)
+Definition root_tag_is (root_tag : str) (head : head_out) : bool :=
+  match head with
+  | HeadTag t => str_eqb (py_lower t) root_tag
+  | _ => false
+  end.
+
 Definition detect_xml (fx : bool) (marker : str) (n : nat) (root_tag : str)
-           (head : head_out) (data : bytes) : res exn bool :=
-  if negb (contains marker (map ascii_lower (firstn n data))) then Ok false
-  else match head with
-       | HeadTag t => Ok (str_eqb (py_lower t) root_tag)
-       | HeadParseError => Ok false
-       | HeadNone => Ok false
-       | HeadExn e => if fx then Ok false else Raise (xml_exn_to_exn e)
+           (head_prefix head_full : head_out) (data : bytes) : res exn bool :=
+  if fx then Ok (root_tag_is root_tag head_full)
+  else if negb (contains marker (map ascii_lower (firstn n data))) then Ok false
+  else match head_prefix with
+       | HeadExn e => Raise (xml_exn_to_exn e)
+       | h => Ok (root_tag_is root_tag h)
        end.
 
+Definition ASX_ROOT : str := lit "asx".
+
 Definition detect_asx (fx : bool) (o : oracles) (data : bytes) : res exn bool :=
-  detect_xml fx (lit "asx") 50 (lit "asx") (o_head50 o) data.
+  detect_xml fx (lit "asx") 50 ASX_ROOT (o_head50 o) (o_head o) data.
 Definition detect_xspf (fx : bool) (o : oracles) (data : bytes) : res exn bool :=
-  detect_xml fx (lit "xspf") 150 XSPF_NS_PLAYLIST (o_head150 o) data.
+  detect_xml fx (lit "xspf") 150 XSPF_NS_PLAYLIST (o_head150 o) (o_head o) data.
 
 (* ------------------------------------------------------------------ line formats *)
 
@@ -434,6 +446,16 @@ Definition render_m3u (lines : list bytes) : bytes :=
 
 Definition render_urilist (lines : list bytes) : bytes :=
   flat_map (fun l => l ++ NLb) lines.
+
+(* str.encode(): UTF-8 of a string of Unicode scalar values *)
+Definition utf8_encode_cp (c : Z) : bytes :=
+  if c <? 128 then [c]
+  else if c <? 2048 then [192 + c / 64; 128 + c mod 64]
+  else if c <? 65536 then [224 + c / 4096; 128 + (c / 64) mod 64; 128 + c mod 64]
+  else [240 + c / 262144; 128 + (c / 4096) mod 64; 128 + (c / 64) mod 64; 128 + c mod 64].
+Definition utf8_encode (s : str) : bytes := flat_map utf8_encode_cp s.
+Definition scalar (c : Z) : bool :=
+  ((0 <=? c) && (c <? 55296)) || ((57344 <=? c) && (c <=? 1114111)).
 
 (* the abstract documents of the oracle-backed formats *)
 Definition xspf_doc (locs : list str) : xml :=
